@@ -259,6 +259,9 @@ def exec_set_wrapper(sess: Session, op: dict, step: int) -> docops.Effect:
                             f'{type(owner).__name__}.{m.name} = copied wrapper')
     if getattr(owner, m.name) is not donor:
         eff.v('C03', 'readback', step, f'{type(owner).__name__}.{m.name} does not return the wrapper just assigned')
+    eff.wrapper_replaced = (owner, m.name)
+    for it in donor:
+        sess.recent.append(it)
     return eff
 
 
@@ -350,5 +353,4 @@ def check_attribution(root: Any, text: str) -> list[Violation]:
             who = rep_desc.get(id(got[1]), type(got[1]).__name__)
             V.append(Violation('C14', 'attribution_rule', -1,
                                f'comment {t.raw_text!r} (lines {l1}-{l2}, {"indented" if k else "unindented"}) is {got[0].strip("_")} of {who}; documented rules give: {exp}'))
-            break
     return V
